@@ -3,6 +3,7 @@
 model:    lean/CssVerif/Model/Media.lean (derived parsers, edit operations, serialisation)
           lean/CssVerif/Model/ProdEngine.lean (generic engine of prodparser.py on the captured grammars)
 theorems: lean/CssVerif/Props/C17.lean
+          lean/CssVerif/Lemmas/MediaSim*.lean (proof that the two agree: T17.6)
 tie:      * translator tools/gen/c17_media.py (MEDIA_TYPES, keyword sets; the two grammar trees as captured from the
             live objects) -> lean/CssVerif/Gen/C17Media.lean, C17Grammar.lean
           * correspondence: implementation vs model on histories of mediaText= / appendMedium / deleteMedium /
@@ -34,9 +35,10 @@ class C17(Check):
                'cssutils/css/value.py', 'cssutils/util.py', 'cssutils/helper.py')
     trusted_base = (
         'hand-written model lean/CssVerif/Model/Media.lean of MediaList / MediaQuery (parse automata, parse-time '
-        'filter, appendMedium, deleteMedium, __setitem__, item, serialisation), tied to the code by the '
+        'filter, appendMedium, deleteMedium, __setitem__, item, the mediaType setter, serialisation), tied to the code by the '
         'differential correspondence of this run (implementation vs model on generated edit histories)',
-        'translator tools/gen/c17_media.py (MEDIA_TYPES and keyword sets read from the source with ast)',
+        'translator tools/gen/c17_media.py (MEDIA_TYPES, keyword sets and the two literals of the mediaType setter read '
+        'from the source with ast)',
         'translator tools/gen/c17_grammar.py (production trees captured from the live MediaList / MediaQuery objects; the '
         'match lambdas are opaque and tied by a probe battery) and the transcription of ProdParser.parse into '
         'lean/CssVerif/Model/ProdEngine.lean: that the engine on the captured trees equals the derived automata is a '
@@ -58,7 +60,10 @@ class C17(Check):
             'duplication / swap / insertion; boundary texts) followed by 0-8 edit operations drawn with bias to the '
             'media types present; each history stand-alone in log mode and raise mode, and with the start text as the '
             'media list of an @media and an @import rule, parsed with comments and with parseComments=False (the sheet tokenizer drops the comments, the token lists then hold runs of S tokens). non-trivial = distinct (start text, operations) whose '
-            'start list is well-formed or whose text has at least two tokens')
+            'start list is well-formed or whose text has at least two tokens. setter stream: (query text, media type, '
+            'error mode) with the query from the same AST generator (comments at every gap, 10 % mutated) and the type '
+            'one of the ten in varied case / with simple escapes (85 %) or an unknown string; non-trivial = the query is '
+            'well-formed')
 
     # ------------------------------------------------------------------------------------------
     def translate(self, ctx):
